@@ -131,6 +131,13 @@ class Ref(object):
         if full not in self.inputs:
             raise _Unavailable('i', full)
         s = self.inputs[full]
+        if '%' in s:
+            # the INI layer's own syntax: a lone % is refused by it (loudly, on either route), %% stands for %
+            import configparser
+            try:
+                s = configparser.BasicInterpolation().before_get(configparser.ConfigParser(), sec, base, s, {})
+            except configparser.Error:
+                raise Abort('IniSyntax', full)
         if not spec.valid(s):
             raise Abort('InvalidInput', full)
         return spec.value(s)
